@@ -89,4 +89,22 @@ size_t UncheckedMemchr(const char* s, size_t n) {
   return e - s;
 }
 
+// --- TB2 control: the would-be length returned by snprintf used as the real one ---------------
+size_t UnboundedFormattedLength(char* out, const char* name) {
+  char buf[64];
+  int len = snprintf(buf, sizeof(buf), "%s", name);
+  if (len < 0)
+    return 0;
+  memcpy(out, buf, len);
+  return len;
+}
+
+// --- TB2 control (negative): the number of bytes actually read bounds the copy --------------
+size_t BoundedReadLength(FILE* f, char* out) {
+  char buf[64];
+  size_t len = fread(buf, 1, sizeof(buf), f);
+  memcpy(out, buf, len);
+  return len;
+}
+
 }  // namespace nvctl
